@@ -457,6 +457,7 @@ func C09(c *vlib.Ctx) {
 	c09RunningClock(c)
 	c09Concurrent(c)
 	c09Reload(c)
+	c09PartialFanout(c)
 	c09ToleranceReload(c)
 	c09L3(c)
 	c.CollectRaces()
